@@ -88,7 +88,29 @@ def parse_table(prog, ctx):
     tup = pb.arg_origin(seen_alt, 0)
     if not (tup[0] == "agg" and tup[1] == "tuple"):
         return pb, None
-    for el in tup[4]:
+
+    def _flatten(elems):
+        # an alternative that is itself `alt((..))` (grouped alternatives) contributes its own alternatives, in order
+        for e in elems:
+            e0 = T.peel(e, payloads=False)
+            if T.is_call(e0, r"^nom::branch::alt$") and e0[2] and isinstance(e0[2][0], tuple) and e0[2][0][0] == "agg" and e0[2][0][1] == "tuple":
+                for x in _flatten(e0[2][0][4]):
+                    yield x
+            else:
+                yield e
+
+    def _tag_bytes(arg):
+        a = T.peel(arg)
+        cb = T.const_bytes(a)
+        if cb is not None:
+            return cb
+        # `[cmd as u8]` built from constants (an inlined `opcode(cmd)` helper)
+        if isinstance(a, tuple) and a[0] == "agg" and a[1] == "array":
+            vals = [T.const_int(x) for x in a[4]]
+            if all(v is not None and 0 <= v < 256 for v in vals):
+                return bytes(vals)
+        return None
+    for el in _flatten(tup[4]):
         el = T.peel(el, payloads=False)
         variant, inner, tagb = None, None, None
         node = el
@@ -100,7 +122,7 @@ def parse_table(prog, ctx):
             inner = node[2][1]
             node = T.peel(node[2][0], payloads=False)
         if T.is_call(node, r"^nom::bytes::complete::tag$"):
-            tagb = T.const_bytes(T.peel(node[2][0]))
+            tagb = _tag_bytes(node[2][0])
         # which variant?
         if ctor is not None and ctor[0] == "const" and ctor[1][0] == "fn":
             m = re.search(r"commands::Command::(\w+)$", ctor[1][1])
@@ -151,6 +173,8 @@ def parse_table_match(prog, pb):
                 continue
             if isinstance(rv, tuple) and rv[0] == "agg" and rv[3] == "Err":
                 continue        # a refusal for this byte on some path (short body)
+            if T.is_call(rv, r"from_residual$") or (isinstance(rv, tuple) and rv[0] in ("errresidual", "errpayload")):
+                continue        # the same, passed on with `?` from an inlined sub-parser
             # delegation to a local sub-parser applied to the bytes after the command byte
             c = T.find(rv, lambda x: isinstance(x, tuple) and x[0] == "call" and x[1] in prog.bodies and x[1] != pb.path and
                        "nom::" in prog.bodies[x[1]].raw.get("sig_out", "") and len(x[2]) == 1)
@@ -211,9 +235,17 @@ def run(ctx):
     n_pre = 0
     parse_rx = r"^commands::parse$"
     for arm, outcome, p in lm.iteration_paths():
-        if arm is not None or not outcome.startswith("return"):
+        if arm is not None or lm.switch_bb in p.blocks:
             continue
-        if lm.switch_bb in p.blocks:
+        if outcome == "stop":
+            # back at the reader without having reached the dispatching match: the command delivered in this iteration was skipped
+            # (`continue` on some condition of it).  The only iteration that may come back without dispatching is one in which the
+            # reader delivered nothing — which it reports by returning, not by looping.
+            n_pre += 1
+            ctx.ob("C02.dispatch-total", False, "the command loop goes back to reading without dispatching the command it was just handed (a `continue` before the dispatching match)",
+                   fn=fr.path, construct="pre-dispatch-continue", where=fr.where(p.blocks[-2] if len(p.blocks) > 1 else p.blocks[-1]))
+            continue
+        if not outcome.startswith("return"):
             continue
         n_pre += 1
         rv = p.return_value()
@@ -236,6 +268,29 @@ def run(ctx):
         ctx.ob("C02.dispatch-total", ok, why, fn=fr.path, construct="pre-dispatch-exit", where=fr.where(p.blocks[-1]),
                sample={"rule": "dispatch-total", "outcome": outcome, "value": term_str(rv)[:80] if rv else None})
     ctx.floor("C02.dispatch-total", "exits of the command loop before the dispatching match", n_pre, 2)
+
+    # a command is whatever the reader reassembled, of any size: the command parsers do not cap it (a "cannot be longer than one
+    # packet" guard drops every multi-packet command although the reader delivered it whole)
+    ncap = 0
+    for pbody in [pb] + [prog.bodies[x] for x in ("commands::execute", "commands::send_long_data") if x in prog.bodies]:
+        for bbx in range(pbody.n):
+            tx = pbody.term(bbx)
+            if tx["k"] != "switch" or pbody.is_cleanup(bbx):
+                continue
+            vx = pbody.origin_op(tx["discr"], bbx, len(pbody.blocks[bbx]["stmts"]))
+            while isinstance(vx, tuple) and vx[0] == "un" and vx[1] == "Not":
+                vx = vx[2]
+            if isinstance(vx, tuple) and vx[0] == "bin" and vx[1] in ("Gt", "Ge", "Lt", "Le"):
+                for a_, k_ in ((vx[2], vx[3]), (vx[3], vx[2])):
+                    kv = T.const_int(k_)
+                    is_len = isinstance(a_, tuple) and ((a_[0] == "call" and re.search(r"slice::<impl \[T\]>::len$", a_[1])) or a_[0] == "ptrmeta" or "PtrMetadata" in term_str(a_)[:20]) and \
+                        T.find(a_, lambda x: T.is_param(x, 1)) is not None
+                    if kv is not None and kv >= 65536 and is_len:
+                        ncap += 1
+                        ctx.ob("C02.dispatch-total", False, "%s compares the length of the command with %d: commands above that size are refused although the reader delivered them whole" % (pbody.path, kv),
+                               fn=pbody.path, construct="size-cap", where=pbody.where(bbx))
+    if not ncap:
+        ctx.ob("C02.dispatch-total", True, "", fn=pb.path, construct="no-size-cap", nontrivial=False)
 
     # ---- fixed fields ----------------------------------------------------------------------
     for fnpat, variant in ((r"^commands::execute$", "Execute"), (r"^commands::send_long_data$", "SendLongData")):
